@@ -487,18 +487,53 @@ def _window(val):
             start = F.const(0) if sym_of(sl[1][0]) == "None" else sl[1][0]
             return kind, u[1][0], start
         return kind, None, None
-    if u is None or not u[0].startswith(("idx", "apply", "call:")):
+    if u is None:
+        # lfilter(...)[start:] + offset: the window taken before something is added (the offset is one row, or a value of the window's length); every
+        # part that is sliced must be sliced from the same row on
+        starts = []
+
+        def f(name, args):
+            if name == "idx" and len(args) == 2 and not isinstance(args[0], str) and not isinstance(args[1], str) and (unfn(args[1]) or ("",))[0] in ("slice", "tuple"):
+                _k, h, st_ = _window(F.fn("idx", args[0], args[1]))
+                if h is not None:
+                    starts.append(st_)
+                    return h
+            return None
+        whole = c03_frf.rewrite(val, f)
+        if starts and all(x.equals(starts[0]) for x in starts):
+            return kind, whole, starts[0]
+        if starts:
+            return kind, None, None
+        return kind, val, F.const(0)
+    if not u[0].startswith(("idx", "apply", "call:")):
         return kind, val, F.const(0)
     return kind, None, None
 
 
-def _check(ctx, ok, text, where, detail=None, values=(), **kw):
+def _opaque_calls(*values):
+    """names of calls the evaluator kept opaque inside the values"""
+    out = set()
+    for v in values:
+        if v is None or is_unknown(v) or isinstance(v, DictValue):
+            continue
+        if isinstance(v, tuple):
+            out |= set(_opaque_calls(*v))
+            continue
+        out |= {n for n in X.fn_names(v) if n.startswith(("call:", "apply"))}
+    return sorted(out)
+
+
+def _check(ctx, ok, text, where, detail=None, values=(), opaque=(), **kw):
     """ctx.check, except that a comparison which fails on values containing a call through something the evaluator could not resolve to a function
     (an unresolved table entry, None) is reported as not decided (exit 2): the mismatch is the checker's, not the code's"""
     if not ok:
         un = X.unresolved(*values)
         if un:
             ctx.error(text + " - not decided: the value goes through a call the evaluator could not resolve", where, un[:3])
+            return False
+        un = _opaque_calls(*opaque)
+        if un:
+            ctx.error(text + " - not decided: the value examined is built by calls this rule does not model", where, un[:3])
             return False
         un = X.uninitialised(*values, handles=True)
         if un:
@@ -805,6 +840,16 @@ def _arange(v, sr):
     """np.arange(a, b) / sr  or  np.arange(n) / sr  -> (a, b)"""
     if v is None or is_unknown(v) or isinstance(v, (tuple, DictValue)):
         return None
+    for scaled in (False, True):
+        # (np.arange(n) / sr)[s:]  and  np.arange(n)[s:] / sr  ->  np.arange(s, n) / sr
+        u0 = unfn(need(v) * sr if scaled else need(v))
+        if u0 and u0[0] == "idx" and len(u0[1]) == 2 and not isinstance(u0[1][0], str) and not isinstance(u0[1][1], str):
+            sl = unfn(u0[1][1])
+            if sl and sl[0] == "slice" and len(sl[1]) == 3 and sym_of(sl[1][1]) == "None" and sym_of(sl[1][2]) == "None":
+                inner = _arange(u0[1][0] / sr if scaled else u0[1][0], sr)
+                if inner is not None:
+                    return (inner[0] if sym_of(sl[1][0]) == "None" else inner[0] + sl[1][0]), inner[1]
+            return None
     u = unfn(need(v) * sr)
     if u and u[0].split(".")[-1] == "arange" and all(not isinstance(z, str) for z in u[1]):
         if len(u[1]) == 1:
@@ -850,6 +895,14 @@ def _shifted(ic):
     if ic == "mshift":
         return sig - F.fn("red:mean", sig, F.const(0))
     return sig - F.fn("idx", sig, F.const(0))
+
+
+def _is_shifted(ic, v):
+    """the value is the documented shift of `sig` (the mean over time also as sum / number of rows)"""
+    if _shifted(ic).equals(v):
+        return True
+    sig = F.sym("sig")
+    return ic == "mshift" and (sig - F.fn("red:sum", sig, F.const(0)) / F.fn("rows", sig)).equals(v)
 
 
 _SHIFT_WORDS = {"zero": "as given", "shift": "minus its first sample", "mshift": "minus its mean over time", "steady": "minus its first sample"}
@@ -907,9 +960,10 @@ def r4_windows(ctx):
                     except Unsupported as e:
                         bad.append(str(e))
                 _check(ctx, not bad, f"{tag}: ceil(sample rate of the filtered signal / lowest non-zero frequency) rows are appended", fn, bad or None,
-                       values=allx + [f["sr"] for _s, f in paths])
+                       values=allx + [f["sr"] for _s, f in paths], opaque=[f["pad"] for _s, f in paths if f["padded"]])
             # (4) returned history, time vector, sample rate
             bad_h, bad_t, bad_sr = [], [], []
+            form_h, form_t, form_sr = [], [], []          # an entry that is there, but not in a form this rule reads: not decided
             rows_set, seen, unbound = [], [], []
             for S_, f in paths:
                 ret = S_.ret()
@@ -923,25 +977,43 @@ def r4_windows(ctx):
                     continue
                 start = rows_of(f["prim"]) if time == "residual" else F.const(0)
                 seen += [v for k in ("hist", "t", "sr") for v in ent.get(k, [])]
-                r = _alloc_rows(S_, ent.get("hist", [None])[0])
-                if r is None or not r.equals(f["rows"] - start):
-                    h0 = ent.get("hist", [None])[0]
+                h0 = ent.get("hist", [None])[0]
+                r = _alloc_rows(S_, h0)
+                if h0 is None:
+                    bad_h.append("resp has no entry 'hist'")
+                elif r is None:
+                    form_h.append(repr(S_.ev.env.get("<init:%s>" % sym_of(h0), h0))[:200])
+                elif not r.equals(f["rows"] - start):
                     bad_h.append({"allocated": repr(S_.ev.env.get("<init:%s>" % sym_of(h0), h0))[:200], "rows of the window": repr(f["rows"] - start)})
                 else:
                     rows_set.append(r)
-                t = _arange(ent.get("t", [None])[-1], f["sr"])
-                if t is None or not (t[0].equals(start) and t[1].equals(f["rows"])):
-                    bad_t.append({"t": repr(ent.get("t", [None])[-1])[:200], "expected": f"arange({start!r}, {f['rows']!r}) / {f['sr']!r}"})
+                tv = ent.get("t", [None])[-1]
+                t = _arange(tv, f["sr"])
+                if tv is None:
+                    bad_t.append("resp has no entry 't'")
+                elif t is None:
+                    form_t.append(repr(tv)[:200])
+                elif not (t[0].equals(start) and t[1].equals(f["rows"])):
+                    bad_t.append({"t": repr(tv)[:200], "expected": f"arange({start!r}, {f['rows']!r}) / {f['sr']!r}"})
                 srv = ent.get("sr", [None])[-1]
-                if srv is None or is_unknown(srv) or isinstance(srv, (tuple, DictValue)) or not need(srv).equals(f["sr"]):
+                if srv is None:
+                    bad_sr.append("resp has no entry 'sr'")
+                elif is_unknown(srv) or isinstance(srv, (tuple, DictValue)):
+                    form_sr.append(repr(srv)[:200])
+                elif not need(srv).equals(f["sr"]):
                     bad_sr.append({"resp['sr']": repr(srv), "sample rate of the coefficients": repr(f["sr"])})
             allv = allx + [f["sr"] for _s, f in paths] + seen
             if unbound:
                 ctx.error(f"{tag}: the response dictionary srs returns is not built by code this rule can follow", fn, unbound[:2])
                 continue
-            _check(ctx, not bad_h, f"{tag}: resp['hist'] has as many rows as the evaluated window of the filter output", fn, bad_h or None, values=allv)
-            _check(ctx, not bad_t, f"{tag}: resp['t'] spans the evaluated window at the sample rate of the filter", fn, bad_t or None, values=allv)
-            _check(ctx, not bad_sr, f"{tag}: resp['sr'] is the sample rate the coefficients were computed for", fn, bad_sr or None, values=allv)
+            for bad_, form_, text in ((bad_h, form_h, "resp['hist'] has as many rows as the evaluated window of the filter output"),
+                                      (bad_t, form_t, "resp['t'] spans the evaluated window at the sample rate of the filter"),
+                                      (bad_sr, form_sr, "resp['sr'] is the sample rate the coefficients were computed for")):
+                if form_ and not bad_:
+                    ctx.error(f"{tag}: {text} - not decided: the entry is not in a form this rule reads (an allocation np.empty / np.zeros((rows, signals, "
+                              "frequencies)), np.arange(first, last) / sr, a value)", fn, form_[:2])
+                else:
+                    _check(ctx, not bad_, f"{tag}: {text}", fn, bad_ or None, values=allv)
             if rolloff == "none":
                 serial_rows[time] = rows_set
     # the same window on the code path that restores the steady-state value (ic='steady' with a response type that has one)
@@ -993,11 +1065,11 @@ def r4_windows(ctx):
         for ic in ICS:
             tag = f"srs (stype={st}, ic={ic}, time=total)"
             try:
-                bad, n, extra, shifted, allx = [], 0, [], [], []
+                bad, n, extra, shifted, allx, pads = [], 0, [], [], [], []
                 for S_, recs in srs_regime(ctx, st=st, ic=ic, time="total"):
                     f = _facts(ctx, S_, recs)
                     allx.append(f["x"])
-                    if not _shifted(ic).equals(f["prim"]):
+                    if not _is_shifted(ic, f["prim"]):
                         shifted.append({"filtered": repr(f["prim"])[:300], "rule": repr(_shifted(ic))})
                     if ic != "steady":
                         # zero initial conditions: the history is the filter output itself
@@ -1008,6 +1080,7 @@ def r4_windows(ctx):
                     if not f["padded"]:
                         continue
                     n += 1
+                    pads.append(f["pad"])
                     z = [a for a in (F.Rat(F.Poly.atom(a)) for a in f["pad"].n.atoms()) if (unfn(a) or ("",))[0] == "zeros"]
                     if len(z) != 1:
                         bad.append({"appended": repr(f["pad"])})
@@ -1020,7 +1093,8 @@ def r4_windows(ctx):
                     ctx.error(f"{tag}: no path appends a cycle", fn)
                     continue
                 _check(ctx, not bad, f"{tag}: the appended cycle is zero base acceleration "
-                       + ("in the frame of the original signal (zeros minus the offset ic='steady' removed)" if ic == "steady" else "(plain zeros)"), fn, bad or None, values=allx)
+                       + ("in the frame of the original signal (zeros minus the offset ic='steady' removed)" if ic == "steady" else "(plain zeros)"), fn, bad or None, values=allx,
+                       opaque=pads)
                 if ic != "steady":
                     ctx.check(not extra, f"{tag}: nothing is added to the filter output (no steady-state values to restore)", fn, extra or None)
             except Unsupported as e:
@@ -1068,6 +1142,29 @@ def _psd_hook(records):
     return hook
 
 
+_CONTRACT = F.sym("<contracted axis>")
+
+
+def _contract_binop(node, a, b, ev):
+    """in vrs the matrix product `t @ df` of the integrand rows with the weight vector is the sum over the frequency axis of the element-wise product"""
+    if isinstance(node.op, ast.MatMult) and not is_unknown(a) and not is_unknown(b) and not isinstance(a, (tuple, DictValue)) and not isinstance(b, (tuple, DictValue)):
+        return F.fn("red:sum", need(a) * need(b), _CONTRACT)
+    return NotImplemented
+
+
+def _contract_call(node, ev):
+    d = dotted(node.func) or ""
+    if d in ("np.dot", "np.matmul", "np.inner", "numpy.dot", "numpy.matmul", "numpy.inner") and len(node.args) == 2 and not node.keywords:
+        a, b = ev.ev(node.args[0]), ev.ev(node.args[1])
+        if not is_unknown(a) and not is_unknown(b) and not isinstance(a, (tuple, DictValue)) and not isinstance(b, (tuple, DictValue)):
+            return F.fn("red:sum", need(a) * need(b), _CONTRACT)
+    if isinstance(node.func, ast.Attribute) and node.func.attr == "dot" and len(node.args) == 1 and not node.keywords and not d.startswith(("np.", "numpy.")):
+        a, b = ev.ev(node.func.value), ev.ev(node.args[0])
+        if not is_unknown(a) and not is_unknown(b) and not isinstance(a, (tuple, DictValue)) and not isinstance(b, (tuple, DictValue)):
+            return F.fn("red:sum", need(a) * need(b), _CONTRACT)
+    return NotImplemented
+
+
 def _indep(w, name):
     """w does not depend on the symbol `name` (decided by substitution and cross-multiplied equality)"""
     return w.subs({name: F.sym(name + "#")}).equals(w)
@@ -1100,7 +1197,7 @@ def r6_vrs(ctx):
             try:
                 paths = []
                 for _dec, S_ in explore(ctx, fn, SRS, fixed=_vrs_fixed(fn_given, set(params)), env={"getresp": TRUE if gr else FALSE, "getmiles": TRUE},
-                                        hooks=(_psd_hook(recs),)):
+                                        hooks=(_psd_hook(recs), _contract_call), binop=_contract_binop):
                     paths.append((S_, list(recs)))
                     del recs[:]
             except Unsupported as e:
@@ -1357,6 +1454,11 @@ def r8_peak_selectors(ctx):
         if got is None or is_unknown(got) or isinstance(got, (tuple, DictValue)):
             ctx.error(f"peak '{key}': value of {sel[key]}", fn, repr(got))
             continue
+        # the response history is real: |x| enters the value through even powers only <=> |x|^2 = x^2 may be used
+        A = F.sym("<|resp|>")
+        g2 = c03_frf.rewrite(need(got), lambda name, args: A if (name == "abs" and len(args) == 1 and not isinstance(args[0], str) and args[0].equals(x)) else None)
+        if X.depends(g2, "<|resp|>") and g2.subs({"<|resp|>": -A}).equals(g2):
+            got = g2.subs({"<|resp|>": x})
         ok = any(need(got).equals(w) for w in want[key])
         unmodelled = sorted(n for n in X.fn_names(need(got)) if n.startswith(("call:", "attr:", "idx", "apply")))
         if unmodelled and not ok:
